@@ -122,7 +122,7 @@ func finish(f *core.Flags, r *core.Result) {
 var (
 	keys8 = [][]byte{{}, []byte("00"), []byte("a"), []byte("a\x00"), []byte("ab"), []byte("b"), {0xff}, {0xff, 0xff}}
 	// thorough adds four more: deeper shared prefixes and byte extremes next to existing keys
-	keys12 = append(append([][]byte{}, keys8...), []byte("a\x00\x00"), []byte("aa"), []byte("b\x00"), []byte{0xfe})
+	keys12 = append(append([][]byte{}, keys8...), []byte("aa"), []byte{0xfe}, []byte("b\x00"), []byte("a\x00\x00"))
 	probes = [][]byte{[]byte("0"), []byte("c")} // never inserted by any alphabet
 )
 
@@ -220,11 +220,32 @@ func plansFor(tier string) []*Plan {
 		add(&Plan{Name: "m3/shapes6nil", M: 3, Keys: sub(keys8, 0, 1, 2, 3, 5, 6), PerKey: true, Rem: true, NilEmpty: true})
 		return ps
 	}
-	// ---- thorough
-	for _, m := range []uint8{2, 3, 4, 5, 10, 255} {
-		add(&Plan{Name: fmt.Sprintf("m%d/shapes12", m), M: m, Keys: keys12, PerKey: true, Rem: true})
-		add(&Plan{Name: fmt.Sprintf("m%d/shapes8", m), M: m, Keys: keys8, SetVals: []int64{1, 5}, Rem: true})
-		add(&Plan{Name: fmt.Sprintf("m%d/values4", m), M: m, Keys: sub(keys8, 0, 2, 3, 6), SetVals: []int64{1, 5}, Inc: true, Dec: true, Rem: true})
+	// ---- thorough: per fan-out the largest key set whose reachable set still closes within the tier budget
+	keysN := func(n int) [][]byte { return keys12[:n] }
+	shapes := func(m uint8, n int) {
+		add(&Plan{Name: fmt.Sprintf("m%d/shapes%d", m, n), M: m, Keys: keysN(n), PerKey: true, Rem: true})
 	}
+	values4 := func(m uint8) {
+		add(&Plan{Name: fmt.Sprintf("m%d/values4", m), M: m, Keys: sub(keys8, 0, 2, 3, 6), SetVals: vals, Inc: true, Dec: true, Rem: true})
+	}
+	// (order = shard assignment: the three light plans first, they share a shard with the last three)
+	shapes(255, 12)
+	values4(255)
+	values4(10)
+	shapes(2, 7) // m=2 over 8 keys does not close within the budget (> 10^6 stored shapes, 7 levels)
+	shapes(3, 10)
+	shapes(4, 11)
+	shapes(5, 12)
+	shapes(10, 12)
+	for _, m := range []uint8{3, 4, 5} {
+		add(&Plan{Name: fmt.Sprintf("m%d/shapes8v", m), M: m, Keys: keys8, SetVals: vals, Rem: true})
+	}
+	for _, m := range []uint8{2, 3, 4, 5} {
+		values4(m)
+	}
+	seeded("three_nodes", 10, mid4, keys8)
+	seeded("three_nodes", 255, mid4, sub(keys8, 1, 2, 3, 4, 5, 6))
+	seeded("three_nodes", 5, mid3, keys8)
+	add(&Plan{Name: "m3/shapes8nil", M: 3, Keys: keys8, PerKey: true, Rem: true, NilEmpty: true})
 	return ps
 }
